@@ -18,6 +18,6 @@ Init == c \in { cc \in Configs : Sensible(cc) } /\ o \in Options
 Next == UNCHANGED << c, o >>
 InvC08 == C08(c, o)
 InvC02 == C02(c, o)
-InvFault == \A i \in 1..Len(Steps) : FaultSafe(c, o, Steps[i])
+InvFault == (\A i \in 1..Len(Steps) : FaultSafe(c, o, Steps[i])) /\ ContinuationsSound
 Emit == PrintT(<< "T", c, o, Expected(c, o) >>)
 =============================================================================
